@@ -17,6 +17,8 @@ import FgaVerif.Spec.WeightsSem
 import FgaVerif.Gen.Atn
 import FgaVerif.Model.Conform
 import FgaVerif.Gen.Grammar
+import FgaVerif.Model.LexSim
+import FgaVerif.Model.GParse
 /-! Line-protocol driver: one S-expression operation per input line, one canonical result per
     output line. Runs the executable model definitions only (no proofs are imported). -/
 namespace FgaVerif.Driver
@@ -282,6 +284,97 @@ def opAtnTable (which : String) : String :=
   | some xs => "(" ++ " ".intercalate (xs.map Sexp.quote) ++ ")"
   | none => "bad-op"
 
+/-! ### the lexer: the interpreter of `Model/LexSim.lean` on the automaton embedded in the Go lexer -/
+def lexSim : LexSim.Sim := LexSim.build ((AtnGraph.deserializeLexer Gen.Atn.goLexerAtn).getD default)
+def lexStarts : Array (Option (Array LexSim.Config)) :=
+  (List.range lexSim.modeStart.size).toArray.map (LexSim.startSet lexSim)
+
+def lexItems (text : String) : List LexSim.Item :=
+  let cs := text.toList
+  LexSim.visible (LexSim.lexLoop (LexSim.matchOne lexSim lexStarts) lexSim.ruleTokenType lexSim.actions (cs.length + 2) {} (1, 0) cs)
+
+def tokName (ty : Int) : String :=
+  if ty == -1 then "EOF"
+  else match Gen.Atn.goLexerSymbolic[ty.toNat]? with
+    | some n => if n == "" then s!"T{ty}" else n
+    | none => s!"T{ty}"
+
+/-- `Token.GetText()`: the end-of-file token reads `<EOF>` -/
+def tokText (t : LexSim.Token) : String := if t.ty == -1 then "<EOF>" else String.ofList t.text
+
+/-- tokens of all channels and the lexer's error reports, in order of occurrence -/
+def opLex (text : String) : String :=
+  if lexSim.unsupported then "unmodelled" else
+  let items := lexItems text
+  match items.find? (fun i => match i with | .abort _ => true | _ => false) with
+  | some (.abort why) => s!"(abort {Sexp.quote why})"
+  | _ =>
+    let toks := items.filterMap fun i => match i with
+      | .tok t => some s!"({tokName t.ty} {Sexp.quote (tokText t)} {t.line} {t.col} {t.channel})"
+      | _ => none
+    let errs := items.filterMap fun i => match i with
+      | .err text l c => some s!"({l - 1} {c} {Sexp.quote ("token recognition error at: '" ++ String.ofList text ++ "'")})"
+      | _ => none
+    s!"(lex ({" ".intercalate toks}) ({" ".intercalate errs}))"
+
+/-! ### the parser: the grammar interpreter of `Model/GParse.lean` on the rules regenerated from `OpenFGAParser.g4` -/
+
+mutual
+  /-- a tree in the notation of the harness (`dumpTree`), label fields in child order -/
+  partial def treeS : Tree → String
+    | .tok ty text l c err => s!"({if err then "e" else "t"} {ty} {Sexp.quote text} {l} {c})"
+    | .rule name sl sc ls cs =>
+      let ls := insertionSort (fun (a b : String × Nat) => a.2 ≤ b.2) ls
+      s!"(r {Sexp.quote name} {sl} {sc} ({" ".intercalate (ls.map fun (k, i) => s!"({k} {i})")}) ({" ".intercalate (cs.map treeS)}))"
+end
+
+def decTok : Sexp → Option GParse.Tok
+  | .list [.atom ty, .str text, l, c] => do pure ⟨ty, text, ← Codec.nat? l, ← Codec.nat? c⟩
+  | _ => none
+
+def parseOutcomeS : GParse.Outcome → String
+  | .tree t => treeS t
+  | .noParse => "(syntax-error)"
+  | .outOfFuel => "(out-of-fuel)"
+
+/-- tokens of the default channel (EOF last) → the parse tree, or `(syntax-error)` -/
+def opParse (toks : List Sexp) : String :=
+  match toks.mapM decTok with
+  | none => "bad-op"
+  | some ts => parseOutcomeS (GParse.parse Gen.Grammar.rules "main" ts.toArray)
+
+/-- the tokens the parser sees: default channel only -/
+def parserToks (items : List LexSim.Item) : Array GParse.Tok :=
+  (items.filterMap fun i => match i with
+    | .tok t => if t.channel == 0 then some ⟨tokName t.ty, tokText t, t.line, t.col⟩ else none
+    | _ => none).toArray
+
+/-- text → tokens (Lean lexer) → parse tree (Lean parser) -/
+def opLexParse (text : String) : String :=
+  if lexSim.unsupported then "unmodelled" else
+  let items := lexItems text
+  match items.find? (fun i => match i with | .abort _ => true | _ => false) with
+  | some (.abort why) => s!"(abort {Sexp.quote why})"
+  | _ =>
+    let nerr := (items.filter fun i => match i with | .err _ _ _ => true | _ => false).length
+    s!"(lexparse {nerr} {parseOutcomeS (GParse.parse Gen.Grammar.rules "main" (parserToks items))})"
+
+/-- the whole DSL → model pipeline inside the model: comment pre-pass, lexer (automaton interpreter),
+    parser (grammar interpreter), listener walk.  A text the lexer or the parser rejects is answered by
+    `(syntax-errors)` (ANTLR's error messages and recovery are not modelled). -/
+def opDsl2ModelFull (text : String) : String :=
+  if lexSim.unsupported then "unmodelled" else
+  let cleaned := String.ofList (Clean.clean text.toList)
+  let items := lexItems cleaned
+  match items.find? (fun i => match i with | .abort _ => true | _ => false) with
+  | some (.abort why) => s!"(abort {Sexp.quote why})"
+  | _ =>
+    if items.any (fun i => match i with | .err _ _ _ => true | _ => false) then "(syntax-errors)" else
+    match GParse.parse Gen.Grammar.rules "main" (parserToks items) with
+    | .outOfFuel => "(out-of-fuel)"
+    | .noParse => "(syntax-errors)"
+    | .tree t => toString (Codec.encOutcome (Listener.transform [] t))
+
 def step (line : String) : String :=
   match Sexp.parse line with
   | none => "bad-op"
@@ -306,6 +399,10 @@ def step (line : String) : String :=
   | some (.list [.atom "wassign", m, .list order]) => opWAssign m order
   | some (.list [.atom "modpath", .str e]) => opModPath e
   | some (.list [.atom "modfile", sn, cn]) => opModFile sn cn
+  | some (.list [.atom "lex", .str text]) => opLex text
+  | some (.list [.atom "parse", .list toks]) => opParse toks
+  | some (.list [.atom "lexparse", .str text]) => opLexParse text
+  | some (.list [.atom "dsl2model-full", .str text]) => opDsl2ModelFull text
   | some (.list [.atom "clean", .str text]) => s!"(ok {Sexp.quote (String.ofList (Clean.clean text.toList))})"
   | some _ => "bad-op"
 
